@@ -102,7 +102,7 @@ func runSuffix(s *Script, rec *Rec) {
 				}
 			}
 			e["sainv"] = i32(sainv)
-			if name == "suffix" && inRange {
+			if name == "suffix" && inRange && !boolean(op["nolcp"]) {
 				var lcps [][]int
 				for v := 0; v < 4; v++ {
 					lcp := make([]int32, len(t))
@@ -267,10 +267,31 @@ func runSuffix(s *Script, rec *Rec) {
 			cbs := []any{}
 			work := append([]int32{}, sa...)
 			lcpw := append([]int32{}, lcp...)
+			if boolean(op["shared"]) {
+				// the caller carved both tables out of one array: the LCP
+				// table has spare capacity, and what lies behind it is the
+				// suffix array
+				buf := make([]int32, 2*len(sa))
+				lcpw, work = buf[:len(sa)], buf[len(sa):]
+				copy(lcpw, lcp)
+				copy(work, sa)
+				e["shared"] = true
+			}
 			permute := boolean(op["permute"])
+			nested := boolean(op["nested"])
+			if nested {
+				e["nested"] = true
+			}
+			// a consumer may itself need the groups of another text while it
+			// handles a segment (nested call on the same goroutine)
+			nsa := naiveSA([]byte("abracadabra-abracadabra"))
+			nlcp := naiveLCP([]byte("abracadabra-abracadabra"), nsa)
 			ok := rec.Call(name, func() {
 				suffix.Segments(work, lcpw, minLen, maxLen, func(m int, seg []int32) {
 					cbs = append(cbs, []any{m, i32(seg)})
+					if nested {
+						suffix.Segments(append([]int32{}, nsa...), nlcp, 1, 6, func(int, []int32) {})
+					}
 					if permute {
 						// the consumer may reorder a segment (OSAP sorts it)
 						sort.Slice(seg, func(a, b int) bool { return seg[a] < seg[b] })
@@ -519,6 +540,23 @@ func genSuffix(seed int64, n int, tier string) []Script {
 		out = append(out, Script{Tid: "suffix-" + itoa(seed) + "-" + itoa(int64(i)), Comp: "suffix",
 			Cfg: map[string]any{}, Ops: ops, Tags: []string{"go", "sort"}})
 	}
+	// many random texts over two to four letters, 100..1500 bytes: groups of
+	// more than eight tied B* suffixes with every size relation of the
+	// three partition parts (the push orders of the rank sort), tandem
+	// repeats among them. Sort only (the LCP forms are covered above).
+	for i := 0; i < 2*n; i += 10 {
+		var ops []map[string]any
+		for j := 0; j < 10; j++ {
+			k := 2 + r.Intn(3)
+			t := make([]byte, 100+r.Intn(1400))
+			for x := range t {
+				t[x] = byte('a' + r.Intn(k))
+			}
+			ops = append(ops, map[string]any{"op": "suffix", "t": B2(t), "class": "kary", "nolcp": true})
+		}
+		out = append(out, Script{Tid: "suffix-kary-" + itoa(seed) + "-" + itoa(int64(i)), Comp: "suffix",
+			Cfg: map[string]any{}, Ops: ops, Tags: []string{"go", "sort", "kary"}})
+	}
 	// the budget / tandem-repeat family on its own (short texts, many of them)
 	for i := 0; i < 2*n; i += 10 {
 		var ops []map[string]any
@@ -579,7 +617,8 @@ func genSegments(seed int64, n int, tier string) []Script {
 				minL = 1<<31 - 1
 			}
 			ops = append(ops, map[string]any{"op": "segments", "t": B2(t), "minlen": minL, "maxlen": maxL,
-				"src": pickStr(r, "lib", "naive"), "permute": r.Intn(2) == 0, "class": class})
+				"src": pickStr(r, "lib", "naive"), "permute": r.Intn(2) == 0, "class": class,
+				"shared": r.Intn(4) == 0, "nested": r.Intn(4) == 0})
 		}
 		out = append(out, Script{Tid: "segments-" + itoa(seed) + "-" + itoa(int64(i)), Comp: "suffix",
 			Cfg: map[string]any{}, Ops: ops, Tags: []string{"go", "segments"}})
